@@ -337,13 +337,12 @@ func isRotatedName(pattern, name string) bool {
 	// The text around the timestamp: format the pattern with a placeholder no
 	// file name can contain, and split there.
 	parts := strings.SplitN(fmt.Sprintf(pattern, "\x00"), "\x00", 2)
-	if len(parts) != 2 || !strings.HasPrefix(name, parts[0]) || !strings.HasSuffix(name, parts[1]) {
+	// (the name has to hold both, one after the other: x.l-og has the prefix
+	// x.l- and the suffix .l-og, but they overlap)
+	if len(parts) != 2 || len(name) <= len(parts[0])+len(parts[1]) || !strings.HasPrefix(name, parts[0]) || !strings.HasSuffix(name, parts[1]) {
 		return false
 	}
 	stamp := name[len(parts[0]) : len(name)-len(parts[1])]
-	if stamp == "" {
-		return false
-	}
 	for _, r := range stamp {
 		if r < '0' || r > '9' {
 			return false
